@@ -68,20 +68,38 @@ class Pool:
     def __init__(self) -> None:
         self.classes: list[type] = [T0, T1, T1sub, T2, T3, T4]
 
+    # which spelling of the generic list type a history uses: the PEP 585 one or its `typing` alias.  The two are different
+    # objects that do not compare equal - different keys today - but one history never uses both (a tree that canonicalised them
+    # consistently would break nothing the statements say)
+    typing_flavour = False
+
     def __len__(self) -> int:
-        return 8
+        return 9
 
     def __getitem__(self, i: int) -> Any:
         if i < 6:
             return self.classes[i]
-        return list[T0] if i == 6 else dict[str, T1]  # type: ignore[valid-type]
+        if i == 6:
+            import typing
+
+            return typing.List[T0] if self.typing_flavour else list[T0]  # type: ignore[valid-type]
+        if i == 8:
+            # an Annotated alias used as a type of its own (every access makes a fresh, equal object): given explicitly it is a
+            # key different from the bare class it decorates
+            from typing import Annotated
+
+            return Annotated[T0, "unit: metres"]
+        return dict[str, T1]  # type: ignore[valid-type]
 
     def __iter__(self) -> Any:
         return (self[i] for i in range(len(self)))
 
 
 POOL = Pool()
-NAMES = ["default", "a", "b"]
+# (the last two are legal \w+ names that are different strings - OHM SIGN and GREEK CAPITAL OMEGA - although Unicode normalisation
+# would fold the first into the second)
+NAMES = ["default", "a", "b", "\u2126", "\u03a9"]
+NAME_WEIGHTS = [4, 4, 4, 1, 1]
 BAD_NAMES = ["", "a b", "a.b", "a:b"]
 
 
@@ -269,12 +287,13 @@ class Engine:
             if async_kind == "lambda":  # a sync callable that returns a coroutine is an asynchronous factory too
                 factory = lambda: afactory()  # noqa: E731
             elif async_kind == "object":
+                # a configured factory *object*; every other one is unhashable (a plain @dataclass with __call__ is)
+                extra = {"__eq__": lambda s, o: s is o, "__hash__": None} if fid % 2 else {}
 
-                class AsyncCallable:
-                    async def __call__(self) -> Any:
-                        return await afactory()
+                async def acall(self: Any) -> Any:
+                    return await afactory()
 
-                factory = AsyncCallable()
+                factory = type("AsyncCallable", (), {"__call__": acall, **extra})()
         else:
 
             def sfactory():  # type: ignore[no-untyped-def]
@@ -285,6 +304,10 @@ class Engine:
                 return produce()
 
             factory = sfactory
+            if async_kind == "object" and annotate is None:
+                # (the synchronous counterpart: a callable object, every other one unhashable)
+                extra = {"__eq__": lambda s, o: s is o, "__hash__": None} if fid % 2 else {}
+                factory = type("Maker", (), {"__call__": lambda self: sfactory(), **extra})()
         if annotate is not None:
             factory.__annotations__["return"] = annotate
         if partial:
@@ -962,6 +985,10 @@ class Engine:
         elif name == "default" and self.lookup_serial % 3 == 2:
             nargs = ()
 
+        if t == 8 and api.startswith("inject"):
+            # (as a parameter annotation the Annotated wrapper would be metadata - stripped - and not this key: looked up directly)
+            api = "async" if api == "inject_async" else "nowait"
+
         async def call() -> Any:
             if api == "nowait":
                 return ctx.get_resource_nowait(T, *nargs, optional=optional, **nkw) if optional else ctx.get_resource_nowait(T, *nargs, **nkw)
@@ -1387,7 +1414,7 @@ class Engine:
             return {"op": "leave", "cid": rng.choice(leaves), "how": rng.choice(["clean", "clean", "raise", "cancel"])}
         cid = rng.choice(open_)
         mc = m.ctxs[cid]
-        name = rng.choice(NAMES) if rng.random() > p["p_bad_name"] else rng.choice(BAD_NAMES)
+        name = rng.choices(NAMES, NAME_WEIGHTS)[0] if rng.random() > p["p_bad_name"] else rng.choice(BAD_NAMES)
         if op == "add_resource":
             r = rng.random()
             ntypes = rng.choice([0, 1, 1, 2, 2, 3])
@@ -1424,6 +1451,8 @@ class Engine:
             if rng.random() < p["p_invalid"]:
                 cmd["types"] = rng.choice(["missing", "none_in_types"])
                 cmd["annotated"] = False
+            if isinstance(cmd["types"], list) and 8 in cmd["types"]:
+                cmd["annotated"] = False  # (in a return annotation the Annotated wrapper is metadata and is stripped: not this key)
             return cmd
         # lookups: bias towards keys that exist somewhere
         keys = list(mc.resources) + list(mc.factories) * 3
@@ -1433,7 +1462,7 @@ class Engine:
             if (t, nm) in mc.factories and rng.random() < 0.5:
                 t = rng.choice(mc.factories[(t, nm)].types)
         else:
-            t, nm = rng.randrange(len(POOL)), rng.choice(NAMES)
+            t, nm = rng.randrange(len(POOL)), rng.choices(NAMES, NAME_WEIGHTS)[0]
         if op == "race":
             fk = [(tt, n) for (tt, n), f in mc.factories.items() if (tt, n) not in mc.resources]
             if not fk:
@@ -1495,7 +1524,10 @@ class Engine:
 
 
 def run_history(params: dict[str, Any], rng: Any) -> Engine:
+    Pool.typing_flavour = bool(params.get("typing_flavour"))
     eng = Engine(params, rng)
+    if Pool.typing_flavour:
+        eng.inc("histories_using_the_typing_alias_of_the_generic_list_type")
     try:
         run_virtual(params["backend"], eng.main, sched_seed=params["sched_seed"], shuffle=params["shuffle"])
     except VirtualDeadlock as e:
@@ -1522,6 +1554,7 @@ def default_params(rng: Any, **over: Any) -> dict[str, Any]:
         "apis": list(ALL_APIS),
         "equal_roots": rng.random() < 0.3,
         "falsy_contexts": rng.random() < 0.2,
+        "typing_flavour": rng.random() < 0.4,
         "equal_contexts": rng.random() < 0.15,
     }
     p.update(over)
